@@ -222,6 +222,9 @@ func startServer(o srvOpts) (*core, error) {
 		}
 		if err := s.Start(); err != nil {
 			lastErr = err
+			if try > 20 { // ephemeral ports exhausted by TIME_WAIT: give the kernel a moment
+				time.Sleep(50 * time.Millisecond)
+			}
 			continue
 		}
 		c.srv = s
@@ -379,6 +382,15 @@ func (rc *rawConn) classify(err error) error {
 	}
 	rc.dead = true
 	return io.EOF
+}
+
+// closeNow closes the peer side with a reset, so that hundreds of thousands of short connections do
+// not pile up in TIME_WAIT.
+func (rc *rawConn) closeNow() {
+	if tc, ok := rc.nc.(*net.TCPConn); ok {
+		tc.SetLinger(0)
+	}
+	rc.nc.Close()
 }
 
 func (rc *rawConn) write(b []byte) error {
